@@ -23,6 +23,9 @@
 (*   "FeederBlocks"      the From-Root feeder's send has no ctx.Done() arm *)
 (*   "NilOnCancel"       eg.Wait()'s nil is returned although the caller's *)
 (*                       context was cancelled before the work finished    *)
+(*   "LastSendNoCtx"     the splitter hands over its LAST block with a     *)
+(*                       plain send after one look at the context (a       *)
+(*                       seeded change): nobody may be left to take it     *)
 (***************************************************************************)
 EXTENDS Naturals, Sequences, FiniteSets, TLC
 
@@ -148,6 +151,7 @@ Xfer(p, s) ==
 SendCancel(p) ==                              \* case <-ctx.Done(): return
   /\ pc[p] = "send" /\ ctxDone
   /\ (p.t = "feeder" => "FeederBlocks" \notin Dev)
+  /\ (p.t = "split" /\ item[p] = N => "LastSendNoCtx" \notin Dev)
   /\ Set(p, IF p.t \in {"split", "feeder"} THEN "exit" ELSE "done")
   /\ UNCHANGED <<item, fate, readerFail, next, chClosed, errbuf, errClosed, ctxDone, ectxDone, userCancel, early, egErr, result, mutex, out, errsSent>>
 
@@ -341,6 +345,15 @@ BlockIntegrity ==
 NoDupNoGhost ==
   /\ \A i, j \in 1..Len(out) : (out[i] = out[j]) => i = j
   /\ \A i \in 1..Len(out) : fate[out[i][1]] = "ok" \/ (Entry = "root" /\ fate[out[i][1]] = "genErr")
+
+\* every stage is full and the splitter is handing over the LAST block into it: the state the back-pressure jobs of
+\* C11 force on the real pipeline (as many blocks as the stages hold, plus one); NeverBackedUp is checked only to see
+\* TLC reach it (MC_Pipe_backpressure_reach.cfg: expected to be violated)
+BackedUpAtLastBlock ==
+  /\ Entry = "md" /\ pc[Split] = "send" /\ item[Split] = N
+  /\ \A s \in {"gen", "grow"} : \A p \in WorkersOf(s) : pc[p] = "send"
+  /\ \A p \in WorkersOf("sink") : pc[p] \in {"work", "w1", "w2"}
+NeverBackedUp == ~BackedUpAtLastBlock
 
 TypeOK == /\ mutex \in 0..W /\ \A c \in ErrChans : errbuf[c] \in 0..1
 =============================================================================
